@@ -412,6 +412,20 @@ def _big(rng, shapes):
             cs["tag"] = "big:" + mode; yield cs
 
 
+def _serpentines(shapes):
+    """one corridor through (nearly) every cell, solved end to end: the LONGEST shortest paths a grid can have (131+ cells from 11x12 on) —
+    counters of path position kept in narrow integers show here, nowhere else"""
+    for r, c in shapes:
+        order = [(i, j) for i in range(r) for j in (range(c) if i % 2 == 0 else range(c - 1, -1, -1))]
+        edges = []
+        for (a, b), (a2, b2) in zip(order, order[1:]):
+            edges.append([0, min(a, a2), b] if b == b2 else [1, a, min(b, b2)])
+        edges = sorted(edges)
+        for sol in (order, order[::-1], order[3:], order[: len(order) - 2]):
+            yield dict(rows=r, cols=c, edges=edges, kind="solved", solution=[list(x) for x in sol], tag="serpentine")
+        yield dict(rows=r, cols=c, edges=edges, kind="targeted", start=list(order[0]), end=list(order[-1]), tag="serpentine")
+
+
 def _damaged_images(rng, n):
     """read requests on images that as_pixels cannot produce: markers added / removed / moved (all three classes)"""
     np, LM = _mods()
@@ -572,6 +586,7 @@ def run(ctx):
             cases.append(json.loads(p.read_text()))
     cases += list(_exhaustive(QUICK_SHAPES if ctx.quick else THOROUGH_SHAPES, targeted_stride=3 if ctx.quick else 2))
     cases += list(_sampled(ctx.rng, 200 if ctx.quick else 3000))
+    cases += list(_serpentines([(11, 12), (12, 12), (12, 11), (16, 16)] if ctx.quick else [(11, 12), (12, 11), (12, 12), (16, 16), (17, 17), (23, 12), (20, 20)]))
     cases += list(_big(ctx.rng, [(66, 2), (2, 130)] if ctx.quick else [(64, 64), (130, 130), (70, 40), (1, 300), (300, 1), (128, 3), (3, 129)]))
     ctx.exhaustive = True
     ctx.extra["exhaustive_domain"] = f"all connection structures x all ordered endpoint pairs x BFS shortest paths on shapes {QUICK_SHAPES if ctx.quick else THOROUGH_SHAPES}"
